@@ -6,6 +6,8 @@
 //! LineProcessor configurations.
 #[path = "c20_more.rs"]
 mod more;
+#[path = "c20_wide.rs"]
+mod wide;
 use crate::util::*;
 use serde_json::{json, Value};
 use std::cmp::Ordering;
@@ -481,6 +483,7 @@ fn strs_of(v: &Value) -> Vec<String> {
 }
 
 fn run_one(cx: &mut Ctx, c: &Value) {
+    if wide::run_one_wide(cx, c) { return; }
     match c["cell"].as_str() {
         Some("faststr") => faststr_case(cx, &bytes_of(&c["a"]), &bytes_of(&c["b"])),
         Some("join") => join_case(cx, c["sep"].as_str().unwrap_or(","), &strs_of(&c["parts"])),
@@ -498,7 +501,7 @@ fn run_one(cx: &mut Ctx, c: &Value) {
         Some("lines_cfg") => more::lines_cfg_case(cx, c["text"].as_str().unwrap_or(""), c["cfg"].as_u64().unwrap_or(0), c["batch"].as_u64().unwrap_or(0) as usize, c["delim"].as_str().unwrap_or("")),
         Some("lexops") => {
             let ops: Vec<(u8, String)> = c["ops"].as_array().map(|a| a.iter().map(|o| (o[0].as_u64().unwrap_or(0) as u8, o[1].as_str().unwrap_or("").to_string())).collect()).unwrap_or_default();
-            more::lex_ops_case(cx, &strs_of(&c["strings"]), &ops)
+            more::lex_ops_case(cx, &strs_of(&c["strings"]), &ops, c["via"].as_u64().unwrap_or(0))
         }
         _ => cmp_case(cx, &bytes_of(&c["a"]), &bytes_of(&c["b"]), true),
     }
@@ -506,7 +509,7 @@ fn run_one(cx: &mut Ctx, c: &Value) {
 
 pub fn run(args: &Args) {
     let mut cx = Ctx {
-        sum: Summary::new("C20", "numeric comparators: all pairs of strings over {+,-,0,1,9,.,a} up to length 3 (quick) / 4 (thorough) against an exact integer-arithmetic value oracle, antisymmetry on all pairs, transitivity on all triples up to length 2, plus generated long numerals (equal values written differently); FastStr: generated pairs plus the deep oracle on every length 0..=130 (24 alignments, every constructor, one byte changed at every position, every cut point, find of every substring start); join/split/words/lines/case/lex-iterator histories: generated lists and texts (empties, duplicates, bytes >= 0x80, all line-ending mixes) against std, a sample evaluated in Coq against the models; StreamingLexIterator/SortableStrVec (up to 1300 strings, 2^20-byte strings)/ZoSortedStrVec/unicode/LineProcessor configurations against std; corpus of past witnesses first; non-trivial = at least one operand of length >= 2 (or list of >= 2)"),
+        sum: Summary::new("C20", "numeric comparators: all pairs of strings over {+,-,0,1,9,.,a} up to length 3 (quick) / 4 (thorough) against an exact integer-arithmetic value oracle, antisymmetry on all pairs, transitivity on all triples up to length 2, plus generated long numerals (equal values written differently); FastStr: generated pairs plus the deep oracle on every length 0..=130 (24 alignments, every constructor, one byte changed at every position, every cut point, find of every substring start); join/split/words/lines/case/lex-iterator histories: generated lists and texts (empties, duplicates, bytes >= 0x80, all line-ending mixes) against std, a sample evaluated in Coq against the models; StreamingLexIterator/SortableStrVec (up to 1300 strings, 2^20-byte strings)/ZoSortedStrVec/unicode/LineProcessor configurations against std; breadth families (c20_wide.rs, oracle only): pre-parsed comparators on every pair of valid bodies up to length 3 x sign flags, numerals of 17..2^20 digits against the padded digit-row order, FastStr conversions / collections / strings of 131..2^20+1 bytes (one and two bytes changed around the powers of two, planted bytes, views), join over arbitrary bytes and item types with one JoinBuilder used repeatedly and lists of 2^16 / 2^20 parts, one LineSplitter over many lines, LineProcessor presets x buffer sizes 0..256 KiB x maximum line length x chunked readers with operation histories on one processor (early stop, failing handler, batches, fields, counting) and line_utils, non-UTF-8 input, StreamingLexIterator histories with refused operations and lines around the reader buffer, sorted lists of 2^16 strings, SortableStrVec histories (14 operations, clone, reserve / shrink_to_fit, SORTABLE_CACHE_BLOCK 0..4, SORTABLE_PREFETCH) and vectors around 512 / 10000 / 2^16 strings, ZoSortedStrVec layouts above 2^16 and 2^20 bits, unicode cursor histories and long texts; corpus of past witnesses first; non-trivial = at least one operand of length >= 2 (or list of >= 2)"),
         shards: CoqShards::new(HEADER, 500),
         budget: if args.thorough { 12000 } else { 1800 },
         emit: true,
@@ -588,6 +591,13 @@ pub fn run(args: &Args) {
             b
         } else { rand_numeric(&mut rng) };
         cmp_case(&mut cx, &a, &b, i % 8 == 0);
+        if i % 4 == 0 {
+            // the same operands through the pre-parsed entry points (sign split off by the harness)
+            let sp = |s: &[u8]| -> (Vec<u8>, bool) { match s.first() { Some(b'-') => (s[1..].to_vec(), true), Some(b'+') => (s[1..].to_vec(), false), _ => (s.to_vec(), false) } };
+            let ((ba, na), (bb, nb)) = (sp(&a), sp(&b));
+            wide::numws_case(&mut cx, &ba, na, &bb, nb);
+            wide::numws_case(&mut cx, &ba, !na, &bb, nb);
+        }
         if i < 3 { cx.sum.sample(json!({"a": String::from_utf8_lossy(&a), "b": String::from_utf8_lossy(&b)})); }
     }
     // --- FastStr
@@ -613,6 +623,7 @@ pub fn run(args: &Args) {
             _ => rand_bytes_biased(&mut rng, 6),
         };
         faststr_case(&mut cx, &a, &b);
+        if i % 2 == 0 { wide::faststr_extra(&mut cx, &a, &b); }
     }
     // exhaustive small find/compare universe
     let tiny = all_strings(b"ab", if args.thorough { 7 } else { 6 });
@@ -663,7 +674,7 @@ pub fn run(args: &Args) {
             let t = if code >= 4 { rng.pick(&["", "a", "aa", "ab", "b", "bb", "c", "z", "é"]).to_string() } else { String::new() };
             (code, t)
         }).collect();
-        more::lex_ops_case(&mut cx, &ls, &ops);
+        more::lex_ops_case(&mut cx, &ls, &ops, if i % 4 == 0 { 0 } else { rng.below(6) });
         // --- streaming iterator over the same kind of list
         let terms: Vec<u8> = (0..ls.len()).map(|_| rng.below(2) as u8).collect();
         more::streaming_case(&mut cx, &ls, &terms, rng.chance(1, 2));
@@ -673,6 +684,7 @@ pub fn run(args: &Args) {
             (0..k).map(|_| *rng.pick(&["a", "Z", "é", "É", "ß", "€", "😀", " ", "\u{7f}", "ǅ", "İ"])).collect::<String>().into_bytes()
         };
         more::unicode_case(&mut cx, &utext);
+        wide::per_iteration(&mut cx, &mut rng, i, &ct, &utext, &ls);
         // --- LineProcessor configurations
         let ltext: String = (0..rng.below(9)).map(|_| *rng.pick(&["a", "b,", " ", "\t", "\n", "\n", "\r\n", "\r", ""])).collect();
         more::lines_cfg_case(&mut cx, &ltext, rng.below(8), rng.below(4) as usize, *rng.pick(&[",", "", " ", "b,"]));
@@ -706,6 +718,7 @@ pub fn run(args: &Args) {
     more::sortable_long_case(&mut cx, (1 << 20) - 1);
     more::sortable_long_case(&mut cx, 1 << 20);
     more::sortable_long_case(&mut cx, (1 << 20) + 5);
+    wide::fixed_families(&mut cx, args);
     cx.sum.cell_status("FastStr", "S-only");
     cx.sum.cell_status("StreamingLexIterator", "S-only");
     cx.sum.cell_status("SortableStrVec", "S-only");
